@@ -251,6 +251,9 @@ def run(model: Model, rep: Report) -> None:
     # ----------------------------------------------------------------- R5
     _assembly(model, rep, fo)
 
+    # ----------------------------------------------------------------- R7
+    _keyword_values(model, rep)
+
     # ----------------------------------------------------------------- R6
     r6 = rep.rule("C01-R6", "TYPESTATE", "scanner state hygiene: every field a scanner reads is initialised on every way into it; reference automaton", 20)
     seek = model.func(BASE + ".seek")
@@ -386,3 +389,57 @@ def _assembly(model: Model, rep: Report, fo: Folder) -> None:
                 ref_guard = any(isinstance(c, ast.If) and "len(self.curstack) >= 2" in unparse(c.test) for st in n.body for c in [st] + list(walk_no_nested(st)))
     r5.check(null_ok, site(dk), dk.qualname, "`null` pushes None", why="KEYWORD_NULL branch does not push None")
     r5.check(ref_ok and ref_guard, site(dk), dk.qualname, "`R` consumes exactly two operands under a length guard and builds PDFObjRef from the object number", why=f"built={ref_ok} guarded={ref_guard}")
+
+
+def _value_keywords(f: FuncInfo) -> Dict[str, Tuple[str, ast.AST]]:
+    """keyword constant -> kind of value pushed in its place, for the arms `token is self.KEYWORD_X` of a do_keyword."""
+    out: Dict[str, Tuple[str, ast.AST]] = {}
+
+    def arm(test: ast.AST, body: List[ast.stmt]) -> None:
+        kws = []
+        if isinstance(test, ast.Compare) and len(test.ops) == 1 and unparse(test.left) == "token":
+            if isinstance(test.ops[0], (ast.Is, ast.Eq)):
+                kws = [unparse(test.comparators[0])]
+            elif isinstance(test.ops[0], ast.In) and isinstance(test.comparators[0], (ast.Tuple, ast.List, ast.Set)):
+                kws = [unparse(e) for e in test.comparators[0].elts]
+        if not kws:
+            return
+        for c in [x for st in body for x in [st] + list(walk_no_nested(st))]:
+            if isinstance(c, ast.Call) and (dotted(c.func) or "") == "self.push" and c.args and isinstance(c.args[0], ast.Tuple) and len(c.args[0].elts) == 2:
+                v = c.args[0].elts[1]
+                kind = "None" if isinstance(v, ast.Constant) and v.value is None else unparse(v)
+                if isinstance(v, ast.Name):
+                    # follow one local definition inside the arm
+                    for a in [x for st in body for x in [st] + list(walk_no_nested(st))]:
+                        if isinstance(a, ast.Assign) and unparse(a.targets[0]) == v.id and isinstance(a.value, ast.Call):
+                            kind = dotted(a.value.func) or kind
+                if kind == "token":
+                    continue  # pushed unchanged: not a value keyword
+                for k in kws:
+                    out[k.replace("self.", "")] = (kind, c)
+
+    for n in walk_no_nested(f.node):
+        if isinstance(n, ast.If):
+            arm(n.test, n.body)
+    return out
+
+
+def _keyword_values(model: Model, rep: Report) -> None:
+    r7 = rep.rule("C01-R7", "SIBLING", "the two object readers agree on value keywords: what PDFParser.do_keyword turns into a value (null -> None, R -> reference), PDFStreamParser.do_keyword (object streams, content of PDFStreamParser(bytes)) turns into the same value", 2)
+    a = model.func("pdfminer.pdfparser.PDFParser.do_keyword")
+    b = model.func("pdfminer.pdfparser.PDFStreamParser.do_keyword")
+    va, vb = _value_keywords(a), _value_keywords(b)
+    if "KEYWORD_R" not in va or "KEYWORD_NULL" not in va:
+        from ..model import AnchorMissing
+
+        raise AnchorMissing(f"PDFParser.do_keyword: value keywords not recognised ({sorted(va)})")
+    exempt = {"KEYWORD_STREAM": "stream objects cannot be stored in an object stream (ISO 32000-1 7.5.7), and a PDFStreamParser has no file to slice the payload from"}
+    for k, (kind, node) in sorted(va.items()):
+        if k in exempt and k not in vb:
+            r7.safe(site(a, node), a.qualname, f"{k} -> {kind} only in the file-body reader", exempt[k])
+        elif k in vb and vb[k][0] == kind:
+            r7.ok(site(b, vb[k][1]), b.qualname, f"{k} -> {kind} in both readers")
+        elif k in vb:
+            r7.violation(site(b, vb[k][1]), b.qualname, f"{k} -> {vb[k][0]} (PDFParser: {kind})", "the same spelling reads back as different values depending on whether the object sits in the file body or in an object stream")
+        else:
+            r7.violation(site(b), b.qualname, f"{k} is not converted (PDFParser pushes {kind})", f"inside an object stream (and for PDFStreamParser(bytes).nextobject()) the keyword stays a PSKeyword: `<< /A null >>` reads back as {{'A': /b'null'}} instead of {{'A': None}}")
